@@ -257,7 +257,7 @@ def main():
         except BaseException:  # noqa
             import traceback
             res.append({"backend": case["backend"], "svcs": case["svcs"], "prog": case["prog"],
-                        "crash": traceback.format_exc()[-2500:]})
+                        "nested": case["nested"], "choices": case["choices"], "crash": traceback.format_exc()[-2500:]})
     print("@@" + json.dumps({"results": res}))
 
 
